@@ -9,6 +9,7 @@
 
 mod c02;
 mod c16;
+mod c17;
 mod case;
 mod model;
 mod run;
@@ -90,6 +91,12 @@ fn drive_c02_c03(opts: &Opts) -> i32 {
     rep.finish()
 }
 
+/// Driver for properties whose per-case function needs a scratch directory.
+fn drive_scratch(opts: &Opts, level: &str, label: &str, cases: u64, rule: &str, f: impl Fn(u64, &std::path::Path, &mut c02::Acc) + Sync) -> i32 {
+    thread_local!(static SCRATCH: Scratch = Scratch::new("iosim"));
+    drive_simple(opts, level, label, cases, rule, |sub, acc| SCRATCH.with(|s| f(sub, s.path(), acc)))
+}
+
 /// Driver for properties whose per-case function needs no scratch directory.
 fn drive_simple(opts: &Opts, level: &str, label: &str, cases: u64, rule: &str, f: impl Fn(u64, &mut c02::Acc) + Sync) -> i32 {
     let mut rep = Report::new(opts, level, rule);
@@ -143,6 +150,7 @@ fn main() {
         let r = match v["kind"].as_str().unwrap_or("") {
             "c02c03" => c02::replay(&prop, &v, scratch.path()),
             "c16" | "c16-printer" => c16::replay(&v),
+            "c17" => c17::replay(&v, scratch.path()),
             k => harness_error(&format!("unknown replay kind {k}")),
         };
         match r {
@@ -162,6 +170,12 @@ fn main() {
         "C16" => drive_simple(&opts, "fault_enumeration", "c16", opts.cases(60_000, 3_000_000),
             "per generated case (<=24 lines; LF/CRLF; line and multi-line patterns; binary detection none/quit/convert with a planted NUL) the uninterrupted event stream E is recorded for the slice strategy and for a reader under a seeded history and buffer capacity; then EVERY crash point of that case is executed: each event index k (begin, match, context, separator, binary notice) x {stop, error} and each read index j x {error, Interrupted}; plus the Standard/JSON/Summary printers with max_matches=N for every N in 0..#matches+1 (slice and reader) and a writer failing after k bytes. One evaluation = one search run with one injected crash point. distinct_nontrivial = distinct generated cases whose uninterrupted stream has more than two events.",
             |sub, acc| c16::run_case(sub, acc)),
+        "C17" => {
+            let histories = if opts.thorough() { 16 } else { 8 };
+            drive_scratch(&opts, "exploration", "c17", opts.cases(20_000, 1_500_000),
+                "one evaluation = one search of generated text (ASCII, BMP, astral characters, optionally starting with U+FEFF; 0-40 lines, 1 in 16 cases 300-1800 lines so that the 8 KiB transcoding buffer and the roll buffer are crossed) encoded as UTF-16LE/BE with BOM (optionally with lone surrogates, an odd trailing byte, a conflicting explicit label), UTF-8 with BOM (optionally with a label), UTF-16 by label without BOM, UTF-8 by label with a malformed byte, windows-1252 / shift_jis / euc-kr by label, or raw with encoding none; searched as a slice, through SimReader histories (one always splitting code units: fixed 1/3/5/7-byte reads; EINTR incl. during BOM sniffing) with randomised buffer capacity, and through a tmpfs file with/without mmap. Oracle: event stream identical to search_slice over the one-shot encoding_rs decode of the input (mark overrides label, mark removed, malformed -> U+FFFD; encoding none -> raw bytes). distinct_nontrivial = distinct cases with delivered results whose reader needed more than two reads.",
+                move |sub, scratch, acc| c17::run_case(sub, histories, scratch, acc))
+        }
         p => harness_error(&format!("iosim does not serve {p}")),
     };
     std::process::exit(code);
